@@ -154,8 +154,19 @@ class Linter:
                     "'large_file_skip_byte_limit' value, or disable by setting it "
                     "to zero."
                 )
-        with open(fname, encoding=encoding, errors="backslashreplace") as target_file:
-            raw_file = target_file.read()
+        try:
+            with open(
+                fname, encoding=encoding, errors="backslashreplace"
+            ) as target_file:
+                raw_file = target_file.read()
+        except UnicodeError as err:
+            # Individual undecodable bytes are handled by the error handler
+            # above, but some codecs reject the whole stream (e.g. utf-16
+            # without a byte order mark). Skip the file rather than crash.
+            raise SQLFluffSkipFile(
+                f"Unable to read file {fname!r} using encoding {encoding!r}: {err}. "
+                "Check the 'encoding' setting in your config."
+            )
         # Scan the raw file for config commands.
         file_config.process_raw_file_for_config(raw_file, fname)
         # Return the raw file and config
